@@ -246,9 +246,10 @@ class Hist:
             self.dirty = True
 
     def hash_ok(self):
-        # (K5, repaired: a hash/proof query on the dirty working tree while a non-default initial version is
-        # pending memoised hashes for version 1; generation avoided that trigger until the repair)
-        return True
+        # K5 / K5r: a hash/proof query on the dirty working tree while a non-default initial version is
+        # pending memoises hashes for version 1 (the commit no longer persists them - K5 repaired - but later
+        # read-only queries on that dirty tree still see them, K5r); generation avoids exactly that trigger.
+        return not (self.dirty and self.base == 0 and self.iv_pending not in (None, 1))
 
     def read_ops(self, n=None):
         r, p = self.r, self.p
